@@ -219,6 +219,33 @@ func runC14(e *Env) {
 	})
 	e.R.AddPart(ev.Part{Name: "chains-in-process", Enumerated: fmt.Sprintf("all %d chains over {p,r,d,s} of length 1..%d from all 28 keys", len(chains), maxLen), Executions: int64(total), Exhaustive: true})
 
+	// pumped chains: every word of length 1..3 repeated until the chain is 12, 24, 48, 96 (and 480) letters long
+	var pumped []string
+	for _, w := range chains {
+		if len(w) > 3 {
+			continue
+		}
+		for _, n := range []int{12, 24, 48, 96, 480} {
+			if n%len(w) != 0 || len(w) == 1 && n <= 48 {
+				continue
+			}
+			pumped = append(pumped, strings.Repeat(w, n/len(w)))
+			pumped = append(pumped, strings.Repeat(w, n/len(w))+"d", "r"+strings.Repeat(w, n/len(w)))
+		}
+	}
+	mc.ParFor(len(pumped)*len(keys), func(i int) {
+		c := c14Case{keys[i%len(keys)], pumped[i/len(keys)], "lib"}
+		c14Eval(e, c, true)
+		e.R.Trace(1)
+		e.R.Transition(int64(len(c.Chain)))
+		e.R.NonTrivialN(1)
+		if i%23 == 0 {
+			c.Path = "cli"
+			c14Eval(e, c, true)
+		}
+	})
+	e.R.AddPart(ev.Part{Name: "pumped-chains", Enumerated: fmt.Sprintf("every word of length 1..3 over {p,r,d,s} repeated to 12, 24, 48, 96 and 480 letters, also followed by d and preceded by r (%d chains) from all 28 keys in-process, every 23rd through the real binary", len(pumped)), Executions: int64(len(pumped) * len(keys)), Exhaustive: true})
+
 	// CLI chains
 	cliLen := 4
 	if e.Thorough {
